@@ -753,6 +753,11 @@ class G:
         body = self.vary_impure(body, "callee", ve)
         if not ve or self.p(0.3):
             body.append(self.varied_binding("callee", ve))
+        if self.p(0.3):
+            # a loop of the callee's own: its parentloop is not the caller's loop
+            body.append({"t": "for", "var": "zz", "iter": ["range", ["int", 1], ["int", 1]], "else": None,
+                         "body": [T("pl="), OUT(P("forloop", "parentloop", "length")), T(","),
+                                  OUT(P("forloop", "parentloop", "index")), T(";")]})
         lead = self.p(0.8)
         if lead:
             body = probe("L") + body
